@@ -347,6 +347,24 @@ func c13Mine(c *Ctx, rel string) {
 		t := b.CallTermAt(addCall)
 		okAdd = t.Arg(1).IsInt(1)
 	}
+	if !okAdd && addCall != nil {
+		// all workers registered at once: wg.Add(n) before a loop i = 0..n-1 that spawns exactly one worker per iteration
+		nT := b.CallTermAt(addCall).Arg(1)
+		for _, ce := range b.CondEdges() {
+			if !ce.Taken || !matches("bin<<>(ind<+1>(0), alt("+termPat(nT)+", conv<int>("+termPat(nT)+")))", ce.Lit) && !matches("bin<<>(conv<int>(ind<+1>(0)), "+termPat(nT)+")", ce.Lit) {
+				continue
+			}
+			var back []ana.Edge
+			for _, e := range ana.BackEdges(f) {
+				if e.To == ce.From {
+					back = append(back, e)
+				}
+			}
+			if len(back) == 1 && addCall.Block().Dominates(ce.From) && addCall.Block() != ce.From && ce.To.Dominates(workerGo.Block()) && workerGo.Block().Dominates(back[0].From) {
+				okAdd = true
+			}
+		}
+	}
 	r.Check(okAdd, K("C13.join.add-before-go"), c.ipos(workerGo), "wg.Add(1) executes in the spawning iteration before the go statement (not inside the goroutine)")
 	firstIsDefer := false
 	if len(worker.Blocks) > 0 && len(worker.Blocks[0].Instrs) > 0 {
